@@ -553,6 +553,17 @@ func c01(c *wk.Ctx) {
 			r.Violationf("C01|"+kind+"|outcome=process-aborted:"+why, json.RawMessage(d.Desc), "parsing a well-formed RDB aborted the process (exit %d): %s", d.Result.Exit, firstPanicLine(d.Result.Stderr))
 		}
 	}
+	if c.Replay != "" {
+		idx, _, _ := wk.ReplayIndex(c.Replay)
+		child := "c01files"
+		if idx < 100 {
+			if _, raw, _ := wk.ReplayIndex(c.Replay); bytes.Contains(raw, []byte("value_size")) {
+				child = "c01big"
+			}
+		}
+		wk.ReplayOne(c, child, nil, onDeath(child))
+		return
+	}
 	n := c.N(3000, 60000)
 	nbig := c.N(2, 8)
 	type job struct {
